@@ -1239,7 +1239,7 @@ def _rename_adjacent(old, word):
     return False
 
 
-def check_edit(text, edit, info, reread=False):
+def check_edit(text, edit, info, reread=False, tag=None):
     """Contract of update_source after one edit.  info describes where the edited component lives in
     the generated text: {'code_kind', 'line' / 'lo','hi' / 'symbol', 'rec_ordinal', 'token'}.
     Returns list of (fid, clause, detail)."""
@@ -1248,7 +1248,12 @@ def check_edit(text, edit, info, reread=False):
     op = edit[0]
     label = EDIT_LABEL[op]
     try:
-        model = read_model_from_string(text)
+        try:
+            model = read_model_from_string(text)
+        except _syntax_errors():
+            if tag:  # the text is not accepted: outside the precondition (see feature_tag)
+                return [(FID_UPDATE, 'REJECTED', tag)]
+            raise
         edited = apply_edit(model, edit)
         updated = edited.update_source()
         new_text = updated.code
@@ -1345,11 +1350,16 @@ def check_edit(text, edit, info, reread=False):
     return fails
 
 
-def check_identity(text):
+def check_identity(text, tag=None):
     from pharmpy.modeling import read_model_from_string
 
     try:
-        model = read_model_from_string(text)
+        try:
+            model = read_model_from_string(text)
+        except _syntax_errors():
+            if tag:  # the text is not accepted: outside the precondition (see feature_tag)
+                return [(FID_UPDATE, 'REJECTED', tag)]
+            raise
         code0 = model.code
         m1 = model.update_source()
         code1 = m1.code
@@ -1368,6 +1378,89 @@ def check_identity(text):
 
 # ---- case construction ---------------------------------------------------------------------------
 
+# $THETA records in which a repeated theta `(...)xn` (n parameters written once) stands next to further
+# thetas.  The reference knows how many parameters every item it writes stands for (NM-TRAN: `(value)xn`
+# is n thetas with that value), so it knows which item holds the k-th parameter.
+THETA_REPEATS = ('(0.75)x2', '(0,0.5) x2', '(0.25,1.5,4)x3', '(0,0.5)x2', '(0.25,1.5,4)x2', '(1.5 FIX)x2', '(0.75)X2')
+THETA_REPEATS_QUICK = THETA_REPEATS[:4]
+THETA_REPEAT2 = '(2.25)x2'  # a second repeat of the same record
+THETA_SINGLES = ('(0,1.25)', '(0.5,2.5,7)', '3.5')
+
+
+def theta_item_count(token):
+    """number of parameters an item of a $THETA record stands for"""
+    m = re.search(r'\)\s*[xX]\s*(\d+)$', token)
+    return int(m.group(1)) if m else 1
+
+
+def theta_param_layout(thetas):
+    """[(ordinal of the $THETA record, item text, repeat count of the item)] per parameter, in order"""
+    out = []
+    for r, (toks, _) in enumerate(thetas):
+        for tok in toks:
+            n = theta_item_count(tok)
+            out += [(r, tok, n)] * n
+    return out
+
+
+def theta_repeat_templates():
+    """item sequences: every order of one repeat R and one or two single thetas S in ONE record, every split of
+    these sequences into two consecutive records, and two repeats (R, Q) with one single in one record"""
+    seqs = [('R', 'S'), ('S', 'R'), ('R', 'S', 'S'), ('S', 'R', 'S'), ('S', 'S', 'R')]
+    out = [[list(s)] for s in seqs]
+    for s in seqs:
+        for cut in range(1, len(s)):
+            out.append([list(s[:cut]), list(s[cut:])])
+    out += [[['R', 'Q', 'S']], [['R', 'S', 'Q']], [['S', 'R', 'Q']]]
+    return out
+
+
+def theta_repeat_layouts(tier):
+    """[thetas] with thetas = [[item texts, comment] per record] (json-able)"""
+    out = []
+    for rep in (THETA_REPEATS_QUICK if tier == 'quick' else THETA_REPEATS):
+        for tpl in theta_repeat_templates():
+            k = 0
+            thetas = []
+            for r, rec in enumerate(tpl):
+                toks = []
+                for it in rec:
+                    if it == 'S':
+                        toks.append(THETA_SINGLES[k])
+                        k += 1
+                    else:
+                        toks.append(rep if it == 'R' else THETA_REPEAT2)
+                thetas.append([toks, 'TH%d' % (r + 1)])
+            out.append(thetas)
+    return out
+
+
+def gen_theta_repeat_cases(tier):
+    quick = tier == 'quick'
+    option_flags = ('multiline', 'cmt_after', 'cmt_own', 'tabsep', 'crlf', 'trail_ws', 'lead_tab', 'abbrev', 'wsline',
+                    'empty_between', 'no_final_nl')
+    flagsets = [(), ('multiline',), ('cmt_after',)] if quick else [()] + [(f,) for f in option_flags]
+    for base in (('advan',) if quick else ('advan', 'pred')):
+        for thetas in theta_repeat_layouts(tier):
+            # (a) identity
+            for fl in flagsets:
+                yield {'base': base, 'flags': list(fl), 'edit': None, 'thetas': thetas}
+            # (b) single edits: every theta that is not written with a repeat count (C04 covers edits of the
+            # repeated ones), and edits of other components (the $THETA records are then unrelated records)
+            layout = theta_param_layout(thetas)
+            for fl in flagsets[:1 if quick else 3]:
+                for p, (_, _, n) in enumerate(layout):
+                    if n == 1:
+                        yield {'base': base, 'flags': list(fl), 'edit': ['set_theta', p], 'thetas': thetas}
+                        yield {'base': base, 'flags': list(fl), 'edit': ['fix_theta', p], 'thetas': thetas}
+                yield {'base': base, 'flags': list(fl), 'edit': ['set_omega', 1], 'thetas': thetas}
+                first = SLOTS[base][1].split('=')[0]
+                yield {'base': base, 'flags': list(fl), 'edit': ['modify', first], 'thetas': thetas,
+                       'code_kind': 'PK' if base == 'advan' else 'PRED'}
+                if not quick:
+                    yield {'base': base, 'flags': list(fl), 'edit': ['set_est'], 'thetas': thetas}
+                    yield {'base': base, 'flags': list(fl), 'edit': ['fix_sigma', 0], 'thetas': thetas}
+
 
 def us_case_text(case):
     """case -> (text, edit, info)"""
@@ -1382,6 +1475,8 @@ def us_case_text(case):
         info['body'] = (lines, pos, tail_start, last)
     if case.get('cov') is False:
         kw['cov'] = False
+    if case.get('thetas') is not None:
+        kw['thetas'] = [(list(toks), cmt) for toks, cmt in case['thetas']]
     recs = build_records(base, flags, model=True, **kw)
     text, pre, chunks = render(recs, flags)
     if edit is None:
@@ -1428,7 +1523,12 @@ def us_case_text(case):
             else:
                 info['lines'] = span
     if op in ('set_theta', 'fix_theta'):
-        if base == 'advan':
+        if case.get('thetas') is not None:
+            layout = theta_param_layout(case['thetas'])
+            if layout[edit[1]][2] != 1:
+                raise ValueError(f'{edit}: the parameter is written with a repeat count')
+            layout = [(r, tok) for r, tok, _ in layout]
+        elif base == 'advan':
             layout = [(0, '(0,0.00469307)'), (1, '(0,1.00916)'), (2, '(-.99,.1)')]
         else:
             layout = [(0, '(0,5)'), (0, '(0.1)'), (1, '(-.99,.1,10)')]
@@ -1513,6 +1613,8 @@ def _gen_us_cases(tier):
                             if g2 != g1:
                                 decor[g2] = d2
                             yield {'base': base, 'flags': list(fl), 'edit': edit, 'decor': decor}
+    # (c) $THETA records mixing `(...)xn` repeats with further thetas: identity and single edits
+    yield from gen_theta_repeat_cases(tier)
 
 
 def _us_worker(case):
@@ -1520,12 +1622,16 @@ def _us_worker(case):
         text, edit, info = us_case_text(case)
     except Exception as e:  # generator problem: report loudly
         return [(FID_UPDATE, 'CHECKER ERROR', f'{type(e).__name__}: {e} for {case}', case, 0)], False
+    tag = None
+    if case.get('thetas') is not None:
+        # `(...)xn` is one of the exotic features of feature_tag(): a text the parser rejects is outside the precondition
+        tag = next((t for t in (feature_tag(k, c) for k, c in ref_split(text) if k == 'THETA') if t), None)
     if edit is None:
-        res = check_identity(text)
+        res = check_identity(text, tag)
     else:
-        res = check_edit(text, edit, info, reread=bool(case.get('reread')))
+        res = check_edit(text, edit, info, reread=bool(case.get('reread')), tag=tag)
     size = len(case['flags']) * 10**6 + len(text)
-    return [(f, c, d + f' [case {case}]', case, size) for f, c, d in res], True
+    return [(f, c, d if c == 'REJECTED' else d + f' [case {case}]', case, size) for f, c, d in res], True
 
 
 def bounded_update_source(tier):
@@ -1545,21 +1651,31 @@ def bounded_update_source(tier):
     def order(case):
         return pos[repr(sorted(case.items()))]
 
-    n_ident = sum(1 for c in cases if c['edit'] is None)
+    n_rep = sum(1 for c in cases if c.get('thetas') is not None)
+    n_rep_ident = sum(1 for c in cases if c.get('thetas') is not None and c['edit'] is None)
+    n_ident = sum(1 for c in cases if c['edit'] is None) - n_rep_ident
+    rejected = {}
     ctx = mp.get_context('fork')
     with ctx.Pool(NPROC, initializer=_pool_init) as pool:
         for res, _ in pool.imap_unordered(_us_worker, cases, chunksize=4):
-            _collect(fails, res, None, also, order)
+            _collect(fails, res, rejected, also, order)
+    nrejected = sum(n for n, _, _ in rejected.values())
     return {
         'cases': len(cases),
-        'nontrivial': len(cases),
+        'nontrivial': len(cases) - nrejected,
         'bound': f'{n_ident} unmodified models (2 base models x all subsets of <= {2 if tier == "quick" else 3} of '
-        f'{len(MODEL_FLAGS)} layout variants) + {len(cases) - n_ident} single edits: 18 parameter/estimation/covariance '
+        f'{len(MODEL_FLAGS)} layout variants) + {len(cases) - n_ident - n_rep} single edits: 18 parameter/estimation/covariance '
         f'edits (each theta, omega, sigma: set_initial_estimates, fix_parameters; set/add_estimation_step; add/remove '
         f'parameter uncertainty step) and 8-13 statement edits (change/add/remove/rename in $PK, $ERROR, $PRED) x layout '
         f'variant subsets of size <= {1 if tier == "quick" else 2}, and 14 statement edits (change/remove/add/rename at '
         f'every slot of a 4+ statement record) x all pairs of {len(DECOR_QUICK if tier == "quick" else DECOR_THOROUGH)} '
-        f'comment/verbatim/blank decorations directly above and below the edited statement',
+        f'comment/verbatim/blank decorations directly above and below the edited statement; + {n_rep} cases on '
+        f'{len(theta_repeat_layouts(tier))} $THETA layouts mixing a repeat (...)xn ({len(THETA_REPEATS_QUICK if tier == "quick" else THETA_REPEATS)} '
+        f'spellings) with 1-2 further thetas or a second repeat (every order, one record or split over two records): '
+        f'{n_rep_ident} unmodified models (x {3 if tier == "quick" else 12} layout variants) and {n_rep - n_rep_ident} single edits '
+        f'(set_initial_estimates / fix_parameters of every theta not written with a repeat, one omega, one statement'
+        f'{"" if tier == "quick" else ", estimation step, sigma"}); {nrejected} of these cases use a spelling the parser rejects '
+        f'(outside the precondition)',
         'samples': [repr(cases[1]), repr(cases[n_ident + 3]), repr(cases[-1])],
         'fails': _fails_list(fails, 'bounded_update_source_replay', also),
     }
